@@ -1,18 +1,30 @@
 import ZV.Proofs.C21
+import ZV.Proofs.C21Build
+import ZV.Proofs.C21Leaf
 import ZV.Props.C19
 /-!
   C21 — cryptobyte builders and readers are exact inverses.
 
   * optional readers (`ReadOptionalASN1`, `…Integer`, `…OctetString`, `…Boolean`): tag absent ⇒ input
     untouched and the default returned; tag present and read successful ⇒ exactly one element consumed.
-  * `read_write_fragment`: for every write program of the fragment
-    {AddUint8/16/24/32, AddBytes, AddUint8/16/24LengthPrefixed (any nesting), AddASN1 (any nesting),
-     AddASN1OctetString, AddASN1Boolean, AddASN1NULL} the mirrored read program returns the written
-    values and leaves exactly the tail.  Stated against the specification serializer `ser`; the low-level
-    Builder model (`buildBytes`, back-patching) is compared with `ser` on every T2 case (SPEC-MISMATCH guard).
-  -- FULL: ∀ p, buildBytes p = ser p  (builder_refines_ser; not proved here), and
-  -- FULL: read_write for all 21 ops (needs the write→read direction for INTEGER / OID contents, with the
-  --       hypothesis that every OID sub-identifier is < 2^31 — see the finding on arcs ≥ 2^31).
+  * `builder_refines_ser`: for EVERY program the low-level Builder model (`buildBytes`: shared buffer,
+    `offset` / `pendingLenLen` / `pendingIsASN1`, `flushChild` back-patching, DER long-form widening by
+    `copy`) computes exactly the specification serializer `ser` — result bytes, error, and (never) panic.
+    `builder_never_panics` is the corollary that none of the three `cryptobyte: internal error` panics of
+    `flushChild` is reachable from a program.
+  * `read_write_fragment` (kept): the tail-independent fragment {AddUint8/16/24/32, AddBytes,
+    AddUintNLengthPrefixed, AddASN1, AddASN1OctetString, AddASN1Boolean, AddASN1NULL}.
+  * `read_write_all`: for every program over ALL 21 ops of the model that satisfies the decidable predicate
+    `readable p tail`, the mirrored read program returns exactly the written values and leaves exactly the
+    tail.  `readable` says: fixed-width values fit their width; int64 / uint64 values fit their Go type;
+    every ASN.1 body is shorter than 2^32-6 bytes (the limit of `readASN1`'s uint32 guard); every OID
+    sub-identifier (40·a+b and the further arcs) is below 2^31 (the limit of `readBase128Int`); and every
+    ABSENT optional field is followed (in the written bytes, or in the tail) by a byte different from its tag
+    — nothing else.  `build_read_roundtrip` states it against the low-level Builder model.
+  * `lp n` covers every prefix width `n` (so also the 32-bit `AddUint32LengthPrefixed`; zcrypto's String has
+    no `ReadUint32LengthPrefixed`, the harness reads such a block with `ReadUint32` + `ReadBytes`, which is
+    what `readLengthPrefixed 4` is).
+  Not covered (no model): GeneralizedTime / UTCTime ops (T3 oracle only).
 -/
 open ZV ZV.Der0
 namespace ZV.C21
@@ -137,13 +149,6 @@ def Frag : Prog → Prop
   | .null k => Frag k
   | _ => False
 
-theorem append_ok {a b : Res Bytes} {bs : Bytes} (h : Res.append a b = .ok bs) :
-    ∃ x y, a = .ok x ∧ b = .ok y ∧ bs = x ++ y := by
-  unfold Res.append at h
-  split at h <;> simp at h
-  rename_i x y
-  exact ⟨x, y, rfl, rfl, h.symm⟩
-
 theorem read_write_fragment (p : Prog) (hf : Frag p) :
     ∀ bs tail, ser p = .ok bs → readProg p (bs ++ tail) = .ok (values p, tail) := by
   induction p with
@@ -221,5 +226,292 @@ theorem read_write_fragment (p : Prog) (hf : Frag p) :
 example : Frag (.lp 2 (.asn1 0x30 (.uN 1 7 (.bool true .done)) (.null .done)) (.raw [1, 2] .done)) := by
   simp [Frag, ser, Res.append, elementR, CB.addASN1Boolean, CB.element, boolContent, CB.derLength,
     beBytes_length]
+
+/-! ## the low-level Builder computes the specification serializer -/
+
+/-- `var b Builder; <program>; b.Bytes()` in the low-level model — shared result buffer, `offset`,
+    `pendingLenLen`, `pendingIsASN1`, length back-patching in `flushChild`, DER long-form widening by an
+    overlapping `copy` — equals the specification serializer, for every program (all 21 ops, any nesting,
+    any prefix width, including every error case). -/
+theorem builder_refines_ser (p : Prog) : buildBytes p = ser p := buildBytes_eq_ser p
+
+/-- none of the `panic("cryptobyte: internal error")` sites of `flushChild` ("result unexpectedly shrunk",
+    `pendingLenLen != 1` for an ASN.1 child) nor the index-out-of-range at `child.result[child.offset]`
+    is reachable from a program. -/
+theorem builder_never_panics (p : Prog) : buildBytes p ≠ .panic := by
+  rw [builder_refines_ser]; exact (impl_build p).np
+
+/-- a child that overflows its length prefix is an error, never a silently truncated length:
+    the block is written iff the body is shorter than `256^n`. -/
+theorem lp_overflow_is_error (n : Nat) (body k : Prog) (c : Bytes) (hc : ser body = .ok c)
+    (hlen : c.length ≥ 256 ^ n) : buildBytes (.lp n body k) = .err := by
+  rw [builder_refines_ser]
+  have hnp := (impl_build k).np
+  simp only [ser, hc, lpBytes, hlen, if_true]
+  cases hk : ser k with
+  | ok y => simp [Res.append]
+  | err => simp [Res.append]
+  | panic => exact absurd hk hnp
+
+example : ∃ c, ser (.raw (List.replicate 256 0) .done) = .ok c ∧ c.length ≥ 256 ^ 1 :=
+  ⟨List.replicate 256 0 ++ [], rfl, by
+    simp only [List.length_append, List.length_replicate, List.length_nil]; decide⟩
+
+/-! ## write → read for every op of the model -/
+
+/-- what the mirrored readers need, and nothing more: see the header of this file. `tail` = the bytes
+    that follow the program's output in the String being read. -/
+def readable : Prog → Bytes → Bool
+  | .done, _ => true
+  | .uN w v k, t => decide (v < 256 ^ w) && readable k t
+  | .raw _ k, t => readable k t
+  | .lp _ body k, t => readable body [] && readable k t
+  | .asn1 _ body k, t => bodyFits (ser body) && readable body [] && readable k t
+  | .int64 _ v k, t => int64Range v && readable k t
+  | .uint64 v k, t => decide (v < 18446744073709551616) && readable k t
+  | .big v k, t => decide ((bigIntBytes v).length < 4294967290) && readable k t
+  | .bool _ k, t => readable k t
+  | .oid o k, t => oidInRange o && decide ((oidBody o).length < 4294967290) && readable k t
+  | .octets b k, t => decide (b.length < 4294967290) && readable k t
+  | .bitstr b k, t => decide (b.length + 1 < 4294967290) && readable k t
+  | .null k, t => readable k t
+  | .optAsn1 _ body k, t => bodyFits (ser body) && readable body [] && readable k t
+  | .noAsn1 tag k, t => nextIsNot tag (ser k) t && readable k t
+  | .optInt _ v _ k, t => int64Range v && readable k t
+  | .noInt tag _ k, t => nextIsNot tag (ser k) t && readable k t
+  | .optOctets _ b k, t => decide (b.length < 4294967290) && bodyFits (CB.element 4 b) && readable k t
+  | .noOctets tag k, t => nextIsNot tag (ser k) t && readable k t
+  | .optBool _ _ k, t => readable k t
+  | .noBool _ k, t => nextIsNot 1 (ser k) t && readable k t
+
+/-- **write → read, all ops.**  Whatever a `readable` program writes, the mirrored read program reads
+    back: exactly the written values, exactly the tail left unread. -/
+theorem read_write_all (p : Prog) :
+    ∀ tail bs, readable p tail = true → ser p = .ok bs →
+      readProg p (bs ++ tail) = .ok (values p, tail) := by
+  induction p with
+  | done => intro tail bs _ h; simp [ser] at h; subst h; simp [readProg, values]
+  | uN w v k ih =>
+    intro tail bs hr h
+    simp only [readable, Bool.and_eq_true, decide_eq_true_eq] at hr
+    obtain ⟨x, y, hx, hy, e⟩ := append_ok h
+    simp only [Res.ok.injEq] at hx
+    subst hx; subst e
+    simp only [readProg, values, List.append_assoc, readU_beBytes w v _ hr.1, ih tail y hr.2 hy, cons]
+  | raw b k ih =>
+    intro tail bs hr h
+    simp only [readable] at hr
+    obtain ⟨x, y, hx, hy, e⟩ := append_ok h
+    simp only [Res.ok.injEq] at hx
+    subst hx; subst e
+    simp only [readProg, values, List.append_assoc, readBytes_append, ih tail y hr hy, cons]
+  | lp n body k ihb ihk =>
+    intro tail bs hr h
+    simp only [readable, Bool.and_eq_true] at hr
+    obtain ⟨x, y, hx, hy, e⟩ := append_ok h
+    subst e
+    obtain ⟨c, hc, hlen, hx'⟩ := lpBytes_ok hx
+    subst hx'
+    have hb := ihb [] c hr.1 hc
+    simp only [List.append_nil] at hb
+    simp only [readProg, values, List.append_assoc, readLengthPrefixed_back n c (y ++ tail) hlen,
+      nested_ok hb (ihk tail y hr.2 hy)]
+  | asn1 tag body k ihb ihk =>
+    intro tail bs hr h
+    simp only [readable, Bool.and_eq_true] at hr
+    obtain ⟨x, y, hx, hy, e⟩ := append_ok h
+    subst e
+    obtain ⟨c, hc, hx'⟩ := elementR_ok hx
+    have hb := ihb [] c hr.1.2 hc
+    simp only [List.append_nil] at hb
+    simp only [readProg, values, List.append_assoc,
+      readASN1Tag_back tag c x (y ++ tail) hx' (bodyFits_ok hr.1.1 hc), nested_ok hb (ihk tail y hr.2 hy)]
+  | int64 tag v k ih =>
+    intro tail bs hr h
+    simp only [readable, Bool.and_eq_true] at hr
+    obtain ⟨x, y, hx, hy, e⟩ := append_ok h
+    subst e
+    have hv := int64Range_ok hr.1
+    simp only [readProg, values, List.append_assoc, readInt64Tag_back tag v x (y ++ tail) hx hv.1 hv.2,
+      ih tail y hr.2 hy, cons]
+  | uint64 v k ih =>
+    intro tail bs hr h
+    simp only [readable, Bool.and_eq_true, decide_eq_true_eq] at hr
+    obtain ⟨x, y, hx, hy, e⟩ := append_ok h
+    subst e
+    simp only [readProg, values, List.append_assoc, readUint64_back v x (y ++ tail) hx hr.1,
+      ih tail y hr.2 hy, cons]
+  | big v k ih =>
+    intro tail bs hr h
+    simp only [readable, Bool.and_eq_true, decide_eq_true_eq] at hr
+    obtain ⟨x, y, hx, hy, e⟩ := append_ok h
+    subst e
+    simp only [readProg, values, List.append_assoc, readBigInt_back v x (y ++ tail) hx hr.1,
+      ih tail y hr.2 hy, cons]
+  | bool v k ih =>
+    intro tail bs hr h
+    simp only [readable] at hr
+    obtain ⟨x, y, hx, hy, e⟩ := append_ok h
+    subst e
+    simp only [readProg, values, List.append_assoc, readBool_back v x (y ++ tail) hx, ih tail y hr hy, cons]
+  | oid o k ih =>
+    intro tail bs hr h
+    simp only [readable, Bool.and_eq_true, decide_eq_true_eq, oidInRange, List.all_eq_true] at hr
+    obtain ⟨x, y, hx, hy, e⟩ := append_ok h
+    subst e
+    simp only [readProg, values, List.append_assoc,
+      readOID_back o x (y ++ tail) hx hr.1.1 hr.1.2, ih tail y hr.2 hy, cons]
+  | octets b k ih =>
+    intro tail bs hr h
+    simp only [readable, Bool.and_eq_true, decide_eq_true_eq] at hr
+    obtain ⟨x, y, hx, hy, e⟩ := append_ok h
+    subst e
+    simp only [readProg, values, List.append_assoc,
+      readASN1Tag_back 4 b x (y ++ tail) hx hr.1, ih tail y hr.2 hy, cons]
+  | bitstr b k ih =>
+    intro tail bs hr h
+    simp only [readable, Bool.and_eq_true, decide_eq_true_eq] at hr
+    obtain ⟨x, y, hx, hy, e⟩ := append_ok h
+    subst e
+    simp only [readProg, values, List.append_assoc,
+      readBitString_back b x (y ++ tail) hx hr.1, ih tail y hr.2 hy, cons]
+  | null k ih =>
+    intro tail bs hr h
+    simp only [readable] at hr
+    obtain ⟨x, y, hx, hy, e⟩ := append_ok h
+    simp only [Res.ok.injEq] at hx
+    subst hx; subst e
+    have hel : CB.element 5 [] = .ok [5, 0] := by decide
+    have := readASN1Tag_back 5 [] [5, 0] (y ++ tail) hel (by simp)
+    simp only [List.cons_append, List.nil_append] at this
+    simp only [readProg, values, List.cons_append, List.nil_append, this, ih tail y hr hy, cons]
+  | optAsn1 tag body k ihb ihk =>
+    intro tail bs hr h
+    simp only [readable, Bool.and_eq_true] at hr
+    obtain ⟨x, y, hx, hy, e⟩ := append_ok h
+    subst e
+    obtain ⟨c, hc, hx'⟩ := elementR_ok hx
+    have hb := ihb [] c hr.1.2 hc
+    simp only [List.append_nil] at hb
+    simp only [readProg, values, List.append_assoc,
+      readOptionalASN1_present tag c x (y ++ tail) hx' (bodyFits_ok hr.1.1 hc),
+      nested_ok hb (ihk tail y hr.2 hy), cons]
+  | noAsn1 tag k ih =>
+    intro tail bs hr h
+    simp only [readable, Bool.and_eq_true] at hr
+    have hs : ser k = .ok bs := h
+    simp only [readProg, values, optional_absent_asn1 _ tag (nextIsNot_ok hr.1 hs), ih tail bs hr.2 hs, cons]
+  | optInt tag v d k ih =>
+    intro tail bs hr h
+    simp only [readable, Bool.and_eq_true] at hr
+    obtain ⟨x, y, hx, hy, e⟩ := append_ok h
+    subst e
+    obtain ⟨c, hc, hx'⟩ := elementR_ok hx
+    have hv := int64Range_ok hr.1
+    simp only [readProg, values, List.append_assoc,
+      readOptionalInt_present tag v d c x (y ++ tail) hc hx' hv.1 hv.2, ih tail y hr.2 hy, cons]
+  | noInt tag d k ih =>
+    intro tail bs hr h
+    simp only [readable, Bool.and_eq_true] at hr
+    have hs : ser k = .ok bs := h
+    simp only [readProg, values, optional_absent_integer _ tag d (nextIsNot_ok hr.1 hs), ih tail bs hr.2 hs, cons]
+  | optOctets tag b k ih =>
+    intro tail bs hr h
+    simp only [readable, Bool.and_eq_true, decide_eq_true_eq] at hr
+    obtain ⟨x, y, hx, hy, e⟩ := append_ok h
+    subst e
+    obtain ⟨c, hc, hx'⟩ := elementR_ok hx
+    simp only [readProg, values, List.append_assoc,
+      readOptionalOctets_present tag b c x (y ++ tail) hc hx' hr.1.1 (bodyFits_ok hr.1.2 hc),
+      ih tail y hr.2 hy, cons]
+  | noOctets tag k ih =>
+    intro tail bs hr h
+    simp only [readable, Bool.and_eq_true] at hr
+    have hs : ser k = .ok bs := h
+    simp only [readProg, values, optional_absent_octets _ tag (nextIsNot_ok hr.1 hs), ih tail bs hr.2 hs, cons]
+  | optBool v d k ih =>
+    intro tail bs hr h
+    simp only [readable] at hr
+    obtain ⟨x, y, hx, hy, e⟩ := append_ok h
+    subst e
+    simp only [readProg, values, List.append_assoc, readOptionalBool_present v d x (y ++ tail) hx,
+      ih tail y hr hy, cons]
+  | noBool d k ih =>
+    intro tail bs hr h
+    simp only [readable, Bool.and_eq_true] at hr
+    have hs : ser k = .ok bs := h
+    simp only [readProg, values, optional_absent_boolean _ d (nextIsNot_ok hr.1 hs), ih tail bs hr.2 hs, cons]
+
+/-- a program over 17 of the 21 ops (all integer kinds at their type limits, the largest readable OID
+    sub-identifier, BIT STRING, present and absent optional fields, nesting) that satisfies `readable`
+    and is serialized successfully. -/
+def exampleProg : Prog :=
+  .lp 2 (.asn1 0x30 (.int64 2 (-9223372036854775808) (.uint64 18446744073709551615
+      (.big (-1180591620717411303424) (.oid [2, 999, 2147483647] (.bitstr [0xaa]
+      (.optInt 0xa0 9223372036854775807 7 (.noOctets 0xa1 .done)))))))
+    (.null .done))
+  (.noBool true (.optOctets 0xa2 [1, 2] (.noAsn1 0xa3 (.noInt 0xa4 9 (.uN 4 4294967295 .done)))))
+
+example : readable exampleProg [0x07] = true ∧ (ser exampleProg).isOk = true ∧
+    (buildBytes exampleProg).isOk = true := by decide +kernel
+
+/-- `oidInRange` is necessary (finding F-C21-oid-arc-2^31): `AddASN1ObjectIdentifier` accepts 2.2147483568
+    (sub-identifier 2^31), `ReadASN1ObjectIdentifier` rejects what it wrote. -/
+example : (match ser (.oid [2, 2147483568] .done) with
+    | .ok bs => readProg (.oid [2, 2147483568] .done) bs
+    | _ => .ok ([], [])) = .err := by decide +kernel
+
+/-- `nextIsNot` is necessary: an absent `[0] …` followed by an element with the same tag reads as present. -/
+example : (match ser (.noAsn1 0xa0 (.asn1 0xa0 .done .done)) with
+    | .ok bs => readProg (.noAsn1 0xa0 (.asn1 0xa0 .done .done)) bs
+    | _ => .err) = .err ∧ values (.noAsn1 0xa0 (.asn1 0xa0 .done .done)) = [.absent] := by decide +kernel
+
+/-- the OID part of `readable` is exactly the range the reader imposes: what
+    `AddASN1ObjectIdentifier` wrote is read back by `ReadASN1ObjectIdentifier` iff every sub-identifier
+    (40·a+b, then each further arc) is below 2^31 — otherwise the reader rejects the writer's own output. -/
+theorem oid_read_back_iff (o : List Nat) (pre t : Bytes) (h : CB.addASN1OID o = .ok pre)
+    (hsz : (oidBody o).length < 4294967290) :
+    CB.readOID (pre ++ t) = .ok (o, t) ↔ oidInRange o = true := by
+  constructor
+  · intro hr
+    by_contra hn
+    have hbig : ∃ x ∈ oidSubIds o, 2147483648 ≤ x := by
+      simp only [oidInRange, List.all_eq_true, decide_eq_true_eq, not_forall] at hn
+      obtain ⟨x, hx, hlt⟩ := hn
+      exact ⟨x, hx, by omega⟩
+    rw [readOID_big o pre t h hbig hsz] at hr
+    simp at hr
+  · intro hr
+    simp only [oidInRange, List.all_eq_true, decide_eq_true_eq] at hr
+    exact readOID_back o pre t h hr hsz
+
+example : (CB.addASN1OID [1, 2, 840, 113549]).isOk = true ∧ oidInRange [1, 2, 840, 113549] = true ∧
+    oidInRange [2, 2147483568] = false := by decide +kernel
+
+/-- the same, end to end against the low-level Builder model: `b.Bytes()` read back by the mirrored
+    String readers. -/
+theorem build_read_roundtrip (p : Prog) (tail bs : Bytes) (hr : readable p tail = true)
+    (hb : buildBytes p = .ok bs) : readProg p (bs ++ tail) = .ok (values p, tail) :=
+  read_write_all p tail bs hr (by rw [← builder_refines_ser]; exact hb)
+
+/-- the old fragment is the tail-independent part of `readable`. -/
+theorem frag_readable (p : Prog) (hf : Frag p) : ∀ tail, readable p tail = true := by
+  induction p with
+  | done => intro _; rfl
+  | uN w v k ih => intro t; simp [readable, hf.1, ih hf.2 t]
+  | raw b k ih => intro t; simp [readable, ih hf t]
+  | lp n body k ihb ihk => intro t; simp [readable, ihb hf.1 [], ihk hf.2 t]
+  | asn1 tag body k ihb ihk =>
+    intro t
+    have : bodyFits (ser body) = true := by
+      cases hs : ser body with
+      | ok c => simpa [bodyFits] using hf.1 c hs
+      | err => rfl
+      | panic => rfl
+    simp [readable, this, ihb hf.2.1 [], ihk hf.2.2 t]
+  | octets b k ih => intro t; simp [readable, hf.1, ih hf.2 t]
+  | bool v k ih => intro t; simp [readable, ih hf t]
+  | null k ih => intro t; simp [readable, ih hf t]
+  | _ => exact hf.elim
 
 end ZV.C21
